@@ -61,7 +61,7 @@ def check_snap(ctx):
     rowv, readerv = rl.target.id, rl.iter.id
     hid = g.node_of(rl).id
     ws = [c for c in ast.walk(rl) if isinstance(c, ast.Call) and norm.call_name(c) == "writerow"]
-    ok = len(ws) == 1 and norm.is_name(ws[0].args[0], rowv) and g.path_avoiding(hid, {hid, g.exit.id}, {g.node_of(ws[0]).id}, edge_ok=lambda a, b, lab: not (a == hid and lab == "done")) is None
+    ok = len(ws) == 1 and norm.is_name(norm.subst(ws[0].args[0], loop_env(rl)), rowv) and g.path_avoiding(hid, {hid, g.exit.id}, {g.node_of(ws[0]).id}, edge_ok=lambda a, b, lab: not (a == hid and lab == "done")) is None
     ctx.ob(1, "K3", "every row read is written, exactly as a whole row (rows without an arrival included: no pipeline and no operator is lost)", ok, f, ws[0] if ws else rl,
            construct="writer.writerow(row) for every row", detail=f"{len(ws)} writerow site(s)")
     fn = norm.kwarg(wrc[0], "fieldnames", 1) if wrc else None
